@@ -119,6 +119,42 @@ theorem run_echo_short (p : List UInt8) : ∀ (n : Nat), p.length ≤ n →
       rw [ih n (by simpa using h)]
       simp
 
+/-- A complete PING payload: one write of the whole PONG frame. -/
+theorem run_pbody (l0 l1 l2 : UInt8) (p : List UInt8) : ∀ (n : Nat) (acc rest : List UInt8), p.length = n + 1 →
+    run de rl (.pbody l0 l1 l2 n acc) (p ++ rest) =
+      (Ev.wrote (Gen.pongType :: l0 :: l1 :: l2 :: (acc.reverse ++ p)) :: (run de rl .hdr0 rest).1,
+       (run de rl .hdr0 rest).2) := by
+  induction p with
+  | nil => intro n acc rest h; simp at h
+  | cons x xs ih =>
+    intro n acc rest h
+    cases n with
+    | zero =>
+      have : xs = [] := by
+        cases xs with
+        | nil => rfl
+        | cons _ _ => simp at h
+      subst this
+      simp [run, step]
+    | succ n =>
+      simp only [List.cons_append, run, step]
+      rw [ih n (x :: acc) rest (by simpa using h)]
+      simp
+
+/-- A PING payload that has not arrived completely: nothing is written, the reader waits. -/
+theorem run_pbody_short (l0 l1 l2 : UInt8) (p : List UInt8) : ∀ (n : Nat) (acc : List UInt8), p.length ≤ n →
+    run de rl (.pbody l0 l1 l2 n acc) p = ([], .pbody l0 l1 l2 (n - p.length) (p.reverse ++ acc)) := by
+  induction p with
+  | nil => intro n acc _; simp [run]
+  | cons x xs ih =>
+    intro n acc h
+    cases n with
+    | zero => simp at h
+    | succ n =>
+      simp only [run, step]
+      rw [ih n (x :: acc) (by simpa using h)]
+      simp
+
 theorem run_discard (p : List UInt8) : ∀ (n : Nat) (rest : List UInt8), p.length = n + 1 →
     run de rl (.discard n) (p ++ rest) = run de rl .hdr0 rest := by
   induction p with
@@ -156,7 +192,7 @@ theorem frame_some (sl : Int) (p : List UInt8) (h : fits sl p = true) :
     unfold fits at h
     rw [if_neg (by simpa using h)]
     simp only [frameHeader, e, Gen.sendHeader]
-    simp
+    simp [Gen.senderWriteParts, writePart]
   · rw [bytesToInt_three, ha, hb, hc]
     congr 1
     omega
@@ -313,42 +349,48 @@ theorem not_oversize {n : Nat} (hle : (n : Int) ≤ rl) : Gen.recvOversize (Int.
   simp
   omega
 
-/-- A PING frame of `p.length ≤ recvLimit` bytes: the PONG header (type 2, the same three length
-    bytes) is written, then the payload is copied back byte for byte; nothing is delivered. -/
+theorem onPing_eq (l0 l1 l2 : UInt8) (n : Nat) :
+    onPing (M := M) l0 l1 l2 n =
+      if n = 0 then (.hdr0, [.wrote [2, l0, l1, l2]]) else (.pbody l0 l1 l2 (n - 1) [], []) := by
+  simp [onPing, Gen.pongAfterPayload, Gen.pongType]
+
+/-- A PING frame of `p.length ≤ recvLimit` bytes: once the payload is there, ONE write of the PONG
+    frame (type 2, the same three length bytes, the same payload); nothing is delivered. -/
 theorem run_ping_frame (h0 l0 l1 l2 : UInt8) (p rest : List UInt8)
     (hk : Gen.readerCase (Gen.frameType h0) = .ping)
     (hn : Gen.bytesToInt [l0, l1, l2] = Int.ofNat p.length) (hle : (p.length : Int) ≤ rl) :
     run de rl .hdr0 (h0 :: l0 :: l1 :: l2 :: (p ++ rest)) =
-      (Ev.wrote [2, l0, l1, l2] :: p.map (fun b => Ev.wrote [b]) ++ (run de rl .hdr0 rest).1,
-       (run de rl .hdr0 rest).2) := by
+      (Ev.wrote (2 :: l0 :: l1 :: l2 :: p) :: (run de rl .hdr0 rest).1, (run de rl .hdr0 rest).2) := by
   rw [run_header]
   unfold onHeader
   simp only [hn, hk]
   rw [if_neg (by rw [not_oversize rl hle]; simp)]
+  have e : (Int.ofNat p.length).toNat = p.length := by simp
+  rw [e, onPing_eq]
   by_cases h0' : p.length = 0
   · have : p = [] := List.length_eq_zero_iff.mp h0'
     subst this
-    simp [Gen.pongType]
-  · have e : (Int.ofNat p.length).toNat = p.length := by simp
-    simp only [e, if_neg h0']
-    rw [run_echo de rl p (p.length - 1) rest (by omega)]
+    simp
+  · simp only [if_neg h0']
+    rw [run_pbody de rl l0 l1 l2 p (p.length - 1) [] rest (by omega)]
     simp [Gen.pongType]
 
-/-- A PING frame whose payload has not arrived completely: the PONG header and the part of the
-    payload that is there have been written; the reader waits for the rest. -/
+/-- A PING frame whose payload has not arrived completely: NOTHING has been written yet; the
+    reader waits for the rest. -/
 theorem run_ping_truncated (h0 l0 l1 l2 : UInt8) (n : Nat) (p : List UInt8)
     (hk : Gen.readerCase (Gen.frameType h0) = .ping)
     (hn : Gen.bytesToInt [l0, l1, l2] = Int.ofNat n) (hle : (n : Int) ≤ rl) (hp : p.length < n) :
     run de rl .hdr0 (h0 :: l0 :: l1 :: l2 :: p) =
-      (Ev.wrote [2, l0, l1, l2] :: p.map (fun b => Ev.wrote [b]), .echo (n - 1 - p.length)) := by
+      ([], .pbody l0 l1 l2 (n - 1 - p.length) p.reverse) := by
   rw [run_header]
   unfold onHeader
   simp only [hn, hk]
   rw [if_neg (by rw [not_oversize rl hle]; simp)]
   have e : (Int.ofNat n).toNat = n := by simp
-  simp only [e, if_neg (show ¬ n = 0 by omega)]
-  rw [run_echo_short de rl p (n - 1) (by omega)]
-  simp [Gen.pongType]
+  rw [e, onPing_eq]
+  simp only [if_neg (show ¬ n = 0 by omega)]
+  rw [run_pbody_short de rl l0 l1 l2 p (n - 1) [] (by omega)]
+  simp
 
 /-- A PONG frame is read and dropped. -/
 theorem run_pong_frame (h0 l0 l1 l2 : UInt8) (p rest : List UInt8)
@@ -419,7 +461,11 @@ theorem onHeader_shape (h0 l0 l1 l2 : UInt8) :
       by_cases hz : len.toNat = 0
       · exact ⟨_, _, by simp only [if_neg ho, if_pos hz, onPayload_eq]; rfl, Or.inr (Or.inl rfl)⟩
       · exact ⟨_, _, by simp only [if_neg ho, if_neg hz]; rfl, Or.inl rfl⟩
-    | ping => exact ⟨_, _, by simp only [if_neg ho]; rfl, Or.inr (Or.inr rfl)⟩
+    | ping =>
+      simp only [if_neg ho, onPing_eq]
+      by_cases hz : len.toNat = 0
+      · exact ⟨_, _, by rw [if_pos hz], Or.inr (Or.inr (by simp [Gen.pongType]))⟩
+      · exact ⟨_, _, by rw [if_neg hz], Or.inl rfl⟩
     | pong => exact ⟨_, _, by simp only [if_neg ho]; rfl, Or.inl rfl⟩
     | reserved => exact ⟨_, _, by simp only [if_neg ho]; rfl, Or.inl rfl⟩
     | fallthroughNil => exact absurd rfl hne
@@ -441,6 +487,7 @@ theorem nilCount_step (s : RState) (b : UInt8) : nilCount (step de rl s b).2 = 0
       have : step de rl (.body 0 acc) b = onPayload de (b :: acc).reverse := rfl
       rw [this, onPayload_eq]; exact nilCount_payloadEvents de _
     | succ n => rfl
+  | pbody _ _ _ n _ => cases n <;> rfl
   | echo n => cases n <;> rfl
   | discard n => cases n <;> rfl
   | hdr0 => rfl
@@ -485,7 +532,11 @@ theorem onHeader_map (h0 l0 l1 l2 : UInt8) :
       · obtain ⟨s, evs, h1, h2⟩ := onPayload_map de []
         exact ⟨s, evs, by simp only [if_neg ho, if_pos hz]; exact h1, by simp only [if_neg ho, if_pos hz]; exact h2⟩
       · exact ⟨_, [], by simp only [if_neg ho, if_neg hz]; rfl, by simp only [if_neg ho, if_neg hz]; rfl⟩
-    | ping => exact ⟨_, [.wrote [Gen.pongType, l0, l1, l2]], by simp only [if_neg ho]; rfl, by simp only [if_neg ho]; rfl⟩
+    | ping =>
+      simp only [if_neg ho, onPing_eq]
+      by_cases hz : len.toNat = 0
+      · exact ⟨_, [.wrote [2, l0, l1, l2]], by rw [if_pos hz], by rw [if_pos hz]; rfl⟩
+      · exact ⟨_, [], by rw [if_neg hz], by rw [if_neg hz]; rfl⟩
     | pong => exact ⟨_, [], by simp only [if_neg ho]; rfl, by simp only [if_neg ho]; rfl⟩
     | reserved => exact ⟨_, [], by simp only [if_neg ho]; rfl, by simp only [if_neg ho]; rfl⟩
     | fallthroughNil => exact ⟨_, [.deliverNil], by simp only [if_neg ho]; rfl, by simp only [if_neg ho]; rfl⟩
@@ -497,6 +548,10 @@ theorem step_map (s : RState) (b : UInt8) :
   | body n acc =>
     cases n with
     | zero => exact onPayload_map de _
+    | succ n => exact ⟨_, [], rfl, rfl⟩
+  | pbody l0 l1 l2 n acc =>
+    cases n with
+    | zero => exact ⟨_, [.wrote (Gen.pongType :: l0 :: l1 :: l2 :: (b :: acc).reverse)], rfl, rfl⟩
     | succ n => exact ⟨_, [], rfl, rfl⟩
   | echo n => cases n <;> exact ⟨_, [.wrote [b]], rfl, rfl⟩
   | discard n => cases n <;> exact ⟨_, [], rfl, rfl⟩
